@@ -406,7 +406,9 @@ def check(pid, tier, seed, replay=None):
     rc, out, dt = build_harness()
     harness_ok = rc == 0
     build_log = out
-    drv_rc, drv_out = build_driver() if cq['ok'] or os.path.exists(os.path.join(COQ, 'Model', 'Dispatch.vo')) else (1, 'model not built')
+    # the executable model (incl. the regenerated tables) must be current before it is extracted
+    mrc, mout, _ = coq_make(['Model/Dispatch.vo'])
+    drv_rc, drv_out = build_driver() if mrc == 0 else (1, 'model does not build: ' + mout[-2000:])
 
     cases, monitors, stats, notes, errs = [], [], {}, [], []
     model_out, mismatches, cross_n, cross_bad = {}, [], 0, []
